@@ -9,6 +9,7 @@ extern crate tlsh;
 mod cmpstream;
 mod codecstream;
 mod genstream;
+mod lenstream;
 mod util;
 
 use std::io::Write;
@@ -78,6 +79,9 @@ fn main() {
         "body" => cmpstream::stream_body(&mut out, seed, budget),
         "bodyrows" => cmpstream::stream_body_rows(&mut out, seed, budget),
         "hdr" => cmpstream::stream_hdr(&mut out),
+        "len" => lenstream::stream_len(&mut out, seed, budget),
+        "len-sweep" => lenstream::stream_len_sweep(&mut out),
+        "limits" => lenstream::stream_limits(&mut out, seed, budget),
         "kat" => genstream::stream_kat(&mut out, &format!("{}/kat.txt", corpus)),
         x => {
             eprintln!("unknown stream {}", x);
